@@ -770,3 +770,109 @@ package crypto
 //@ ensures [infinity] old(e2IsInf(*a)) ==> g2infEnc(out)
 //@ ensures [flags] !old(e2IsInf(*a)) ==> g1flagC(out) && !g1flagI(out) && (out[0]/32)%2 == fp2Sgn(e2y(e2Affine(old(*a))))
 //@ ensures [x-coordinate-zcash-order] !old(e2IsInf(*a)) ==> g2x1(out) == fpFromMont(fp2c1(e2x(e2Affine(old(*a))))) && g2x0(out) == fpFromMont(fp2c0(e2x(e2Affine(old(*a)))))
+
+// =============================================================================================
+// C glue, BLS signature layer (properties C01, C17). Group elements are abstract values (e1c/e2c of their
+// coordinates, all Z = 0 representations identified); BLST's group and pairing operations are uninterpreted.
+//   h2cb(bytes)          the hash-to-curve image (in G1) of a 128-byte string
+//   mp2(p0,q0,p1,q1)     e(p0,q0) * e(p1,q1) in GT
+//   pairOK2(...)         that product is 1
+
+//@ pred pairOK2(p0, q0, p1, q1) = fp12IsOne(mp2(p0, q0, p1, q1))
+
+//@ cfunc E1_copy nobody
+//@ requires res != nil && p != nil
+//@ assigns *res
+//@ ensures *res == old(*p)
+
+//@ cfunc E2_copy nobody
+//@ requires res != nil && p != nil
+//@ assigns *res
+//@ ensures *res == old(*p)
+
+//@ cfunc E1_in_G1 nobody pure
+//@ requires p != nil
+//@ assigns nothing
+//@ ensures result == inG1(*p)
+
+//@ cfunc E2_in_G2 nobody pure
+//@ requires p != nil
+//@ assigns nothing
+//@ ensures result == inG2(*p)
+
+//@ cfunc E1_mult nobody
+//@ requires res != nil && p != nil && expo != nil
+//@ assigns *res
+//@ ensures *res == e1Mul(old(*p), old(*expo))
+
+//@ cfunc E2_mult nobody
+//@ requires res != nil && p != nil && expo != nil
+//@ assigns *res
+//@ ensures *res == e2Mul(old(*p), old(*expo))
+
+//@ cfunc E1_add nobody
+//@ requires res != nil && a != nil && b != nil
+//@ assigns *res
+//@ ensures *res == e1Add(old(*a), old(*b))
+
+//@ cfunc E2_add nobody
+//@ requires res != nil && a != nil && b != nil
+//@ assigns *res
+//@ ensures *res == e2Add(old(*a), old(*b))
+
+//@ cfunc E1_neg nobody
+//@ requires res != nil && a != nil
+//@ assigns *res
+//@ ensures *res == e1Neg(old(*a))
+
+//@ cfunc E2_neg nobody
+//@ requires res != nil && a != nil
+//@ assigns *res
+//@ ensures *res == e2Neg(old(*a))
+
+//@ cfunc map_to_G1 nobody
+//@ requires h != nil && (hash_len == 128 ==> valid(hash, 128))
+//@ assigns *h
+//@ ensures (result == VALID) == (hash_len == 128) && (result == VALID || result == INVALID)
+//@ ensures hash_len == 128 ==> *h == old(h2cb(hash[0:128]))
+
+//@ cfunc Fp12_multi_pairing nobody
+//@ requires res != nil && len >= 1 && valid(p, len) && valid(q, len)
+//@ assigns *res
+//@ ensures len == 2 ==> *res == mp2(old(p[0]), old(q[0]), old(p[1]), old(q[1]))
+
+//@ cfunc Fp12_is_one nobody pure
+//@ requires a != nil
+//@ assigns nothing
+//@ ensures result == fp12IsOne(*a)
+
+// the bytes `out` are the canonical compressed encoding of the G1 element P
+//@ pred g1encOf(out, P) = (e1IsInf(P) ==> g1infEnc(out)) && (!e1IsInf(P) ==> g1flagC(out) && !g1flagI(out) && (out[0]/32)%2 == fpSgn(e1y(e1Affine(P))) && g1x(out) == fpFromMont(e1x(e1Affine(P))))
+
+//@ cfunc bls_sign_E1 props C01 C09
+//@ requires valid(out, 48) && sk != nil && h != nil
+//@ assigns out[0:48]
+//@ ensures [signature-is-sk-times-h] g1encOf(out, e1Mul(old(*h), old(*sk)))
+
+//@ cfunc bls_sign props C01 C09
+//@ requires valid(out, 48) && sk != nil && (hash_len == 128 ==> valid(hash, 128))
+//@ assigns out[0:48]
+//@ ensures [hash-length] (result == VALID) == (hash_len == 128) && (result == VALID || result == INVALID)
+//@ ensures [signature-is-sk-times-hash-to-curve] hash_len == 128 ==> g1encOf(out, e1Mul(old(h2cb(hash[0:128])), old(*sk)))
+
+//@ cfunc bls_verify_E1 props C01 C17 C09
+//@ requires pk != nil && s != nil && h != nil
+//@ assigns nothing
+//@ ensures [pairing-equation] (result == VALID) == pairOK2(*s, negG2(), *h, *pk) && (result == VALID || result == INVALID)
+
+//@ cfunc bls_verify props C01 C09
+//@ requires pk != nil && valid(sig, 48) && (hash_len == 128 ==> valid(hash, 128))
+//@ assigns nothing
+//@ ensures [never-undefined] result == VALID || result == INVALID
+//@ ensures [accepts-exactly] (result == VALID) == (g1canon(sig) && inG1(g1pt(sig)) && hash_len == 128 && pairOK2(g1pt(sig), negG2(), h2cb(hash[0:128]), *pk))
+
+//@ cfunc bls_spock_verify props C17 C09
+//@ requires pk1 != nil && pk2 != nil && valid(sig1, 48) && valid(sig2, 48)
+//@ assigns nothing
+//@ ensures [never-undefined] result == VALID || result == INVALID
+//@ ensures [accepts-exactly] (result == VALID) == (g1canon(sig1) && inG1(g1pt(sig1)) && g1canon(sig2) && inG1(g1pt(sig2)) && pairOK2(g1pt(sig1), e2Neg(*pk2), g1pt(sig2), *pk1))
